@@ -10,6 +10,165 @@ use serde_json::json;
 
 pub struct C02;
 
+/// 'buffers' population: configurations and histories aimed at the fixed-capacity buffers of the
+/// state machine - chords with more participants than the small queues hold, one-shots whose
+/// payload has several modifiers tapped again and again (the one-shot key buffer), many macros at
+/// once, many held layers, many undecided tap-holds - each followed by ordinary typing at the limit.
+fn gen_buffers(r: &mut Rng, seed: u64) -> Case {
+    const KEYS: &[&str] = &["a", "b", "c", "d", "e", "f", "g", "h", "i", "j", "k", "l", "m", "n", "o", "p", "q", "r", "s", "t", "u", "v", "w", "x", "y", "z", "1", "2", "3", "4", "5", "6", "7", "8", "9", "0"];
+    let mut case = Case { prop: "C02".into(), seed, ..Default::default() };
+    let kind = *r.pick(&["wide-chord-v2", "wide-chord-v2", "wide-chord-v1", "oneshot-mods", "macros", "layers", "tapholds"]);
+    case.set("population", "mapped");
+    case.set("buffers", kind);
+    case.set("mode", if r.chance(500) { "blocking" } else { "ticking" });
+    let code = |k: &str| oscode_of(k);
+    let mut ops: Vec<Op> = vec![];
+    match kind {
+        "wide-chord-v2" | "wide-chord-v1" => {
+            let n = if kind == "wide-chord-v2" { r.range(12, 36) } else { r.range(6, 24) } as usize;
+            let keys = &KEYS[..n];
+            let mut chords: Vec<Vec<&str>> = vec![keys.to_vec()];
+            for _ in 0..r.range(0, 3) {
+                let mut ks = keys.to_vec();
+                r.shuffle(&mut ks);
+                ks.truncate(r.range(2, n as u64) as usize);
+                chords.push(ks);
+            }
+            if kind == "wide-chord-v2" {
+                let ents: Vec<String> = chords.iter().enumerate().map(|(i, ks)| format!("({}) {} {} {} ()", ks.join(" "), ["x", "y", "z", "w"][i % 4], *r.pick(&[50u64, 200, 1000]), *r.pick(&["first-release", "all-released"]))).collect();
+                case.cfg = format!("(defcfg concurrent-tap-hold yes)\n(defsrc {})\n(deflayer l0 {})\n(defchordsv2 {})\n", keys.join(" "), keys.join(" "), ents.join(" "));
+            } else {
+                let acts: Vec<String> = keys.iter().map(|k| format!("(chord g {k})")).collect();
+                let mut ents: Vec<String> = keys.iter().filter(|_| r.chance(700)).map(|k| format!("({k}) {k}")).collect();
+                for (i, ks) in chords.iter().enumerate() {
+                    ents.push(format!("({}) {}", ks.join(" "), ["x", "y", "z", "w"][i % 4]));
+                }
+                case.cfg = format!("(defsrc {})\n(deflayer l0 {})\n(defchords g {} {})\n", keys.join(" "), acts.join(" "), *r.pick(&[20u64, 100, 500]), ents.join(" "));
+            }
+            for _round in 0..r.range(1, 3) {
+                let mut order = keys.to_vec();
+                r.shuffle(&mut order);
+                let m = r.range((n as u64).saturating_sub(3).max(1), n as u64) as usize;
+                for k in order.iter().take(m) {
+                    ops.push(Op::Press(code(k)));
+                    if r.chance(300) {
+                        ops.push(Op::Gap(r.range(1, 3) as u32));
+                    }
+                }
+                ops.push(Op::Gap(*r.pick(&[1u32, 30, 300, 1200])));
+                r.shuffle(&mut order);
+                for k in order.iter() {
+                    ops.push(Op::Release(code(k)));
+                    if r.chance(300) {
+                        ops.push(Op::Gap(r.range(1, 3) as u32));
+                    }
+                }
+                ops.push(Op::Gap(*r.pick(&[1u32, 50, 1500])));
+            }
+        }
+        "oneshot-mods" => {
+            let payloads = ["C-S-A-lmet", "C-S-lalt", "RC-RS-RA-rmet", "C-S-A-M-rsft", "lsft"];
+            let n = r.range(1, 4) as usize;
+            let acts: Vec<String> = (0..n).map(|_| format!("({} {} {})", *r.pick(&["one-shot", "one-shot-release", "one-shot-press-pcancel", "one-shot-release-pcancel"]), *r.pick(&[200u64, 2000, 5000]), *r.pick(&payloads))).collect();
+            case.cfg = format!("(defsrc {} y z)\n(deflayer l0 {} y (multi a b c d e f g h))\n", KEYS[..n].join(" "), acts.join(" "));
+            for _ in 0..r.range(3, 14) {
+                let k = code(KEYS[r.below(n as u64) as usize]);
+                ops.push(Op::Press(k));
+                if r.chance(700) {
+                    ops.push(Op::Gap(r.range(1, 5) as u32));
+                    ops.push(Op::Release(k));
+                }
+                ops.push(Op::Gap(r.range(0, 6) as u32));
+            }
+            for _ in 0..r.range(1, 3) {
+                let k = code(*r.pick(&["y", "z"]));
+                ops.push(Op::Press(k));
+                ops.push(Op::Gap(r.range(1, 20) as u32));
+                ops.push(Op::Release(k));
+                ops.push(Op::Gap(r.range(1, 20) as u32));
+            }
+            for k in &KEYS[..n] {
+                ops.push(Op::Release(code(k)));
+            }
+            ops.push(Op::Gap(6000));
+        }
+        "macros" => {
+            let n = r.range(5, 12) as usize;
+            let acts: Vec<String> = (0..n).map(|i| match r.below(4) {
+                0 => format!("(macro {} 20 {} 20 {})", KEYS[i], KEYS[i + 1], KEYS[i + 2]),
+                1 => format!("(macro-repeat {} 5)", KEYS[i]),
+                2 => format!("(macro-release-cancel S-({} 30 {}))", KEYS[i], KEYS[i + 1]),
+                _ => format!("(macro C-({} 10 {}) 40 A-{})", KEYS[i], KEYS[i + 1], KEYS[i + 2]),
+            }).collect();
+            case.cfg = format!("(defsrc {})\n(deflayer l0 {})\n", KEYS[..n].join(" "), acts.join(" "));
+            let mut order: Vec<&str> = KEYS[..n].to_vec();
+            r.shuffle(&mut order);
+            for k in &order {
+                ops.push(Op::Press(code(k)));
+                ops.push(Op::Gap(r.range(0, 4) as u32));
+            }
+            ops.push(Op::Gap(r.range(1, 200) as u32));
+            r.shuffle(&mut order);
+            for k in &order {
+                ops.push(Op::Release(code(k)));
+                ops.push(Op::Gap(r.range(0, 4) as u32));
+            }
+            ops.push(Op::Gap(800));
+        }
+        "layers" => {
+            let n = r.range(10, 20) as usize;
+            let mut cfg = format!("(defsrc {} z)\n", KEYS[..n].join(" "));
+            let base: Vec<String> = (0..n).map(|i| format!("({} l{})", *r.pick(&["layer-while-held", "layer-toggle", "layer-while-held"]), i + 1)).collect();
+            cfg.push_str(&format!("(deflayer l0 {} z)\n", base.join(" ")));
+            for li in 1..=n {
+                let row: Vec<String> = (0..n).map(|_| if r.chance(800) { "_".to_string() } else { "x".to_string() }).collect();
+                cfg.push_str(&format!("(deflayer l{li} {} {})\n", row.join(" "), *r.pick(&["_", "y", "(multi _ lctl)"])));
+            }
+            case.cfg = cfg;
+            let mut order: Vec<&str> = KEYS[..n].to_vec();
+            r.shuffle(&mut order);
+            for k in &order {
+                ops.push(Op::Press(code(k)));
+                ops.push(Op::Gap(r.range(0, 3) as u32));
+            }
+            ops.push(Op::Press(code("z")));
+            ops.push(Op::Gap(5));
+            ops.push(Op::Release(code("z")));
+            r.shuffle(&mut order);
+            for k in &order {
+                ops.push(Op::Release(code(k)));
+                ops.push(Op::Gap(r.range(0, 3) as u32));
+            }
+            ops.push(Op::Gap(100));
+        }
+        _ => {
+            let n = r.range(8, 36) as usize;
+            let acts: Vec<String> = (0..n).map(|i| format!("({} {} {} {} {})", *r.pick(&["tap-hold", "tap-hold-press", "tap-hold-release", "tap-hold-press-timeout", "tap-hold-release-timeout"]), 0, r.range(20, 400), KEYS[i], *r.pick(&["lsft", "lctl", "(layer-while-held l1)"])).replace("-timeout 0 ", "-timeout 0 ")).collect();
+            let acts: Vec<String> = acts.iter().map(|a| if a.contains("-timeout ") { let mut x = a.trim_end_matches(')').to_string(); x.push_str(" z)"); x } else { a.clone() }).collect();
+            case.cfg = format!("(defcfg concurrent-tap-hold {})\n(defsrc {})\n(deflayer l0 {})\n(deflayer l1 {})\n", if r.chance(600) { "yes" } else { "no" }, KEYS[..n].join(" "), acts.join(" "), vec!["_"; n].join(" "));
+            let mut order: Vec<&str> = KEYS[..n].to_vec();
+            r.shuffle(&mut order);
+            for k in &order {
+                ops.push(Op::Press(code(k)));
+                if r.chance(400) {
+                    ops.push(Op::Gap(r.range(0, 3) as u32));
+                }
+            }
+            ops.push(Op::Gap(r.range(1, 500) as u32));
+            r.shuffle(&mut order);
+            for k in &order {
+                ops.push(Op::Release(code(k)));
+                if r.chance(400) {
+                    ops.push(Op::Gap(r.range(0, 3) as u32));
+                }
+            }
+            ops.push(Op::Gap(600));
+        }
+    }
+    case.ops = ops;
+    case
+}
+
 impl Prop for C02 {
     fn id(&self) -> &'static str {
         "C02"
@@ -25,6 +184,9 @@ impl Prop for C02 {
     }
     fn gen(&self, seed: u64, tier: Tier) -> Case {
         let mut r = Rng::new(seed);
+        if r.chance(50) {
+            return gen_buffers(&mut r, seed);
+        }
         let o = GenOpts { feats: feat::ALL_RUNTIME | feat::VKEY_RAW, max_keys: 10, max_layers: 5, max_depth: 3, hostile: true };
         let spec = gen_general(&mut r, &o);
         let mut case = Case { prop: "C02".into(), seed, cfg: spec_text(&spec), files: spec.files.clone(), ..Default::default() };
